@@ -3,7 +3,7 @@
    instantiated with them. *)
 From Coq Require Import List ZArith Lia Bool.
 From RG.Base Require Import Outcome GoSlice.
-From RG.Adapter Require Import Str Model Conc NewEngine Alias.
+From RG.Adapter Require Import Str Model Conc NewEngine Alias Pool.
 From RGW Require Import Gen_Adapter Inst_Adapter.
 Import ListNotations.
 Local Open Scope Z_scope.
@@ -203,6 +203,22 @@ Example c19_shared_buffer :
   read_late (al_run KeepAlias ex_mem ex_history) <> reported (al_run KeepAlias ex_mem ex_history) /\
   read_late (al_run KeepCopy ex_mem ex_history) = [ex_long; ex_short].
 Proof. split; [reflexivity|]. split; [vm_compute; discriminate|reflexivity]. Qed.
+
+(* The pool of runner states (cached engine). runAnalyzer's block `if runnerStatePool.New != nil { ... }` is regenerated
+   statement by statement: Get, ctx.State = what was taken, a DEFERRED Put -- in front of the loop over the files, and no
+   other Get / Put in the package. For ANY interleaving of passes (sync.Pool may hand out any pooled state or a new one
+   and may forget states at any time): no RunnerState is held by two passes in progress, and none that is held is in
+   the pool. *)
+Theorem C19_runner_states_are_not_shared_between_running_passes :
+  (discipline_of gen_pool_block = PutAtEnd /\ gen_pool_block_before_run_loop = true /\ gen_pool_stray_uses = [])
+  /\ forall evs, let s := prun (discipline_of gen_pool_block) evs in
+       NoDup (held s) /\ (forall st, In st (held s) -> ~ In st (ps_pool s)).
+Proof. exact (conj gen_pool_discipline gen_states_exclusive). Qed.
+Print Assumptions C19_runner_states_are_not_shared_between_running_passes.
+
+(* ... which a Put right after the Get would lose *)
+Example c19_put_at_once : held (prun PutAtOnce [PBegin 0%nat None; PBegin 1%nat (Some 0%nat)]) = [0; 0]%nat.
+Proof. reflexivity. Qed.
 
 (* non-vacuity: concrete, non-trivial instances *)
 Example c19_report :
